@@ -29,8 +29,10 @@ def plan(ctx):
                           encodes=["HighRateEncoder::work_count", "HighRateDecoder::work_count", "LowRateEncoder::work_count", "LowRateDecoder::work_count"],
                           bounds="none (64-bit), assumes supports(o,r)", flags=FULL, timeout=600, mem_gb=3,
                           symbolic="original_count, recovery_count"))
-    return Plan(hs,
-                assumptions=["README envelope transcribed by hand into the harness (function `envelope`)"],
+    import mir2smt
+    return Plan(hs, zqueries=["MIR_use_high_rate", "MIR_HighRate_supports", "MIR_LowRate_supports"], run_z=lambda c, tier: mir2smt.run(c),
+                assumptions=["README envelope transcribed by hand into the harness (function `envelope`) and, independently, into SMT-LIB (lib/mir2smt.py)",
+                             "second verdict: the nightly's MIR of use_high_rate / HighRate::supports / LowRate::supports executed symbolically over (_ BitVec 64), decided by z3 AND cvc5; a sat model is replayed against the real function through the native companion"],
                 outside=["executing a corner configuration (counts near 65535) end to end", "allocation failure"],
-                trusted_base=COMMON_TRUSTED,
+                trusted_base=COMMON_TRUSTED + ["rustc nightly -Zunpretty=mir", "z3 4.8.12", "cvc5 1.0", "lib/mir2smt.py (translator; a wrong translation can only cause an inconclusive result or a counterexample that fails native replay)"],
                 rule="one solver query per harness; a harness is non-trivial when it has symbolic inputs and all its kani::cover! reachability witnesses are satisfied")
